@@ -79,9 +79,10 @@ func solveQuery(asserts []*Term, comments []string, file string, timeout time.Du
 		os.WriteFile(file, []byte(script), 0o644)
 	}
 	use := append([]solverSpec{}, solvers...)
-	if !nonlinear(asserts) {
-		use = append(use, cvc5Spec)
-	}
+	nl := nonlinear(asserts)
+	// cvc5 joins every race: its incremental linearisation proves polynomial identities that
+	// stall nlsat; on nonlinear goals only its "unsat" is used (models come from z3)
+	use = append(use, cvc5Spec)
 	ctx, cancel := context.WithTimeout(context.Background(), timeout)
 	defer cancel()
 	type ans struct {
@@ -115,6 +116,10 @@ func solveQuery(asserts []*Term, comments []string, file string, timeout time.Du
 			case "unsat":
 				r.status = "unsat"
 			case "sat":
+				if nl && strings.HasPrefix(s.name, "cvc5") {
+					r.status = "unknown"
+					break
+				}
 				r.status = "sat"
 				r.model = parseModel(txt)
 				for k := range r.model {
@@ -127,6 +132,8 @@ func solveQuery(asserts []*Term, comments []string, file string, timeout time.Du
 			default:
 				if ctx.Err() != nil || strings.Contains(txt, "timeout") {
 					r.status = "timeout"
+				} else if strings.HasPrefix(s.name, "cvc5") {
+					r.status = "timeout" // cvc5 is an optional extra: what it cannot parse it simply does not decide
 				} else {
 					r.status = "error"
 				}
